@@ -20,6 +20,7 @@ from ..gausslib import GaussLib, SHAPE_DIM
 from .. import beamops
 from ..femchain import OpaqueGroup, XFe, fe_hook_full
 from ..repo import AnalysisError, dotted, norm_text
+from ..flow import Locals
 from ..xeval import Interp, XObj, Opaque
 from ..xarray import XArray
 from types import SimpleNamespace
@@ -482,9 +483,92 @@ def run(ctx):
     rank_rules(ctx, lib, gl)
     weights_rule(ctx, gl, lib)
     beamops.rule(ctx, lib, "R2.7")
+    thickness_guard_rule(ctx)
     sri_rule(ctx, lib)
     if ctx.tier == "thorough":
         patch_rank(ctx, lib, gl)
     else:
         # cheap subset: every 2-D type and the small 3-D types
         patch_rank(ctx, lib, gl, names=[n for n in lib.names((2, 3)) if lib.get(n).nPe <= 15])
+
+
+def thickness_guard_rule(ctx):
+    """R2.8: the 2-D thickness factor of the element matrices is guarded by `self.dim == 2`, and _Simu.dim is the
+    MODEL's dim: the guard must be satisfiable for the model class the simulation is built on."""
+    repo = ctx.repo
+    r = ctx.rule("R2.8", "thickness factor of K, C, M on 2-D problems: the guard `self.dim == 2` of the thickness rescale can hold for the simulation's model class (its `dim` parameter admits 2)", min_instances=3)
+    simu = repo.cls("EasyFEA.Simulations._simu._Simu")
+    finit = simu.methods["__init__"]
+    # _Simu.dim is the model's dim
+    src = [n for n in ast.walk(finit.node) if isinstance(n, (ast.Assign, ast.AnnAssign)) and "dim" in norm_text(n.targets[0] if isinstance(n, ast.Assign) else n.target) and norm_text(n.value) == "model.dim"]
+    if not src:
+        raise AnalysisError("_Simu.__init__ no longer takes its dim from model.dim: R2.8 anchor moved")
+
+    def dim_domain(mc):
+        for c in mc.mro:
+            e = c.class_attrs.get("dim")
+            if e is not None:
+                if isinstance(e, ast.Call) and (dotted(e.func) or "").endswith("ParameterInValues") and e.args and isinstance(e.args[0], (ast.List, ast.Tuple)):
+                    return [x.value for x in e.args[0].elts if isinstance(x, ast.Constant)]
+                return None
+            if "dim" in c.methods:
+                return None
+        return None
+
+    for ci in sorted(repo.subclasses(simu), key=lambda c: c.qualname):
+        init = ci.methods.get("__init__")
+        if init is None or init.cls is not ci:
+            continue
+        ann = next((a.annotation for a in init.node.args.args if a.arg == "model"), None)
+        mc = repo.resolve_name(ci.module, dotted(ann)) if ann is not None and dotted(ann) else None
+        guards = []  # (function, node, guard subject)
+        for nm, f in ci.methods.items():
+            if f.cls is not ci or nm != f.node.name:
+                continue
+            loc = Locals(f.node)
+            for n in ast.walk(f.node):
+                if isinstance(n, (ast.If, ast.IfExp)) and isinstance(n.test, ast.Compare) and len(n.test.ops) == 1 and isinstance(n.test.ops[0], ast.Eq):
+                    left = norm_text(loc.resolve(n.test.left))
+                    right = n.test.comparators[0]
+                    branches = (n.body + n.orelse) if isinstance(n, ast.If) else [n.body, n.orelse]
+                    if left in ("self.dim", "self.mesh.dim", "self.mesh.inDim", "groupElem.dim", "groupElem.inDim") and isinstance(right, ast.Constant) and right.value in (2, 3) and any("thickness" in norm_text(b) for b in branches):
+                        guards.append((f, n, left, right.value))
+        def real_thickness(c):
+            # a settable parameter, or a property that returns something other than a constant (BeamStructure returns None: sections carry the area)
+            if "thickness" in c.class_attrs:
+                return True
+            m = c.methods.get("thickness")
+            if m is None:
+                return None
+            rets = [x for x in ast.walk(m.node) if isinstance(x, ast.Return)]
+            return any(x.value is not None and not isinstance(x.value, ast.Constant) for x in rets)
+
+        has_thickness = False
+        if mc is not None and hasattr(mc, "mro"):
+            for c in mc.mro:
+                t = real_thickness(c)
+                if t is not None:
+                    has_thickness = t
+                    break
+        builds = ci.methods.get("Construct_local_matrix_system")
+        if not guards:
+            if has_thickness and builds is not None and builds.cls is ci:
+                r.instance(fn=builds.qualname)
+                r.fail(builds.qualname, f"no-thickness:{ci.name}", builds.file, builds.lineno, f"{ci.name}.Construct_local_matrix_system", f"model {mc.name} carries a thickness but no method of {ci.name} applies it under a 2-D guard")
+            continue
+        selfdim = [g for g in guards if g[2] == "self.dim"]
+        if not selfdim:
+            f, n = guards[0][:2]
+            r.instance(fn=f.qualname)
+            r.ok(f"{ci.name}: thickness applied under a mesh-dimension guard ({guards[0][2]} == {guards[0][3]})")
+            continue
+        guards = [(g[0], g[1]) for g in selfdim]
+        f, n = guards[0]
+        r.instance(fn=f.qualname)
+        dom = dim_domain(mc) if mc is not None and hasattr(mc, "mro") else None
+        if dom is None:
+            r.ok(f"{ci.name}: model dim is derived (not a literal domain); {len(guards)} thickness guard(s) on self.dim == 2")
+        elif 2 in dom:
+            r.ok(f"{ci.name}: model {mc.name}.dim in {dom}; {len(guards)} thickness guard(s) on self.dim == 2")
+        else:
+            r.fail(f.qualname, f"dead-thickness-guard:{ci.name}", f.file, n.lineno, f"{ci.name}.{f.name}", f"the thickness rescale is guarded by `self.dim == 2`, but _Simu.dim is {mc.name}.dim, which only takes the values {dom}: on a 2-D mesh K, C (and M) are never multiplied by the thickness while surface loads are - capacity sums to rho c area instead of rho c area thickness, and a flux load gives a temperature off by the factor thickness")
